@@ -494,6 +494,22 @@ theorem wblocks_documented_eq1 (pre suf : List Nat) (hsuf : 0 < prod suf) (wdata
   simp only [if_false, if_true, hlen, g1, g2, hr, hw, Nat.mul_one, Nat.div_one, hreps']
   rw [if_neg (Nat.ne_of_gt hsuf)]
 
+/-! ## `torch.cat(R)`, `torch.cat(J)`: reading back a residual's own rows -/
+
+theorem rows_getD (rs : List (Res ℝ)) (i : Nat) (hi : i < rs.length) :
+    (rs.map (·.rows)).getD i 0 = (rs.getD i default).rows := by
+  simp [List.getD_eq_getElem?_getD, List.getElem?_map, List.getElem?_eq_getElem hi]
+
+theorem catR_at (rs : List (Res ℝ)) (i o : Nat) (hi : i < rs.length) (ho : o < (rs.getD i default).rows) :
+    catR rs (offset (rs.map (·.rows)) i + o) = (rs.getD i default).R o := by
+  unfold catR vcatV
+  rw [locate_offset _ i o (by simpa using hi) (by rw [rows_getD rs i hi]; exact ho)]
+
+theorem catJ_at (rs : List (Res ℝ)) (i o c : Nat) (hi : i < rs.length) (ho : o < (rs.getD i default).rows) :
+    catJ rs (offset (rs.map (·.rows)) i + o) c = (rs.getD i default).J o c := by
+  unfold catJ vcatM
+  rw [locate_offset _ i o (by simpa using hi) (by rw [rows_getD rs i hi]; exact ho)]
+
 /-! ## bridge to Mathlib matrices -/
 
 open Matrix
